@@ -807,7 +807,7 @@ def main(argv):
             'coverage': {
                 'evaluations': nruns_done,
                 'distinct_nontrivial': len(nontriv_hashes),
-                'rule': cfg['rule'],
+                'rule': cfg['rule'] + (' ' + cfg['rule_more'] if cfg.get('rule_more') else ''),
                 'samples': samples,
                 'distinct_event_logs': len(all_hashes),
                 'distinct_abstract_states': len(states),
